@@ -1,7 +1,7 @@
 (* C07 - property theorems only.  `run_obs`/`run_exp` are teststatistic ; distributions ; pvalues /
    expected_pvalues of the transcribed AsymptoticCalculator at the real instance, for an arbitrary cdf Phi. *)
 From Coq Require Import Reals List.
-Require Import PV.Num PV.Asympt.
+Require Import PV.Num PV.Asympt PV.AsymptPhi.
 Import ListNotations.
 Local Open Scope R_scope.
 
@@ -104,6 +104,49 @@ Theorem C07_band_monotone : forall Phi, cdf_increasing Phi -> cdf_positive Phi -
   nondecr (band_of (run_exp RNum Phi sqrt k b q qA) 2).
 Proof. exact band_monotone. Qed.
 
+(* --- the concrete standard normal cdf NPhi x = 1/2 + int_0^x exp(-t^2/2)/sqrt(2 pi) dt --- *)
+Theorem C07_normal_cdf_symmetric : cdf_symmetric NPhi.
+Proof. exact NPhi_sym. Qed.
+Theorem C07_normal_cdf_increasing : cdf_increasing NPhi.
+Proof. exact NPhi_increasing. Qed.
+(* from the Gaussian integral alone (gauss_total_stmt: NPhi tends to 0 at minus infinity) *)
+Theorem C07_normal_cdf_positive : gauss_total_stmt -> cdf_positive NPhi.
+Proof. exact NPhi_positive. Qed.
+Theorem C07_normal_cdf_mills : gauss_total_stmt -> forall x, 0 <= nphi x + x * NPhi x.
+Proof. exact mills_all. Qed.
+Theorem C07_normal_cdf_logconcave : gauss_total_stmt -> cdf_logconcave NPhi.
+Proof. exact NPhi_logconcave. Qed.
+
+(* the printed formulae for the concrete cdf: no premise about the cdf is left *)
+Theorem C07_clsb_q_normal : forall k b q qA, k <> KQtilde -> known b -> 0 <= q -> 0 <= qA ->
+  CLsb_of RNum (run_obs RNum NPhi sqrt k b q qA) = Some (1 - NPhi (sqrt q)).
+Proof. exact clsb_q_concrete. Qed.
+Theorem C07_clb_q_normal : forall k b q qA, k <> KQtilde -> known b -> 0 <= q -> 0 <= qA ->
+  CLb_of RNum (run_obs RNum NPhi sqrt k b q qA) = Some (1 - NPhi (sqrt q - sqrt qA)).
+Proof. exact clb_q_concrete. Qed.
+Theorem C07_clsb_qtilde_low_normal : forall b q qA, known b -> 0 <= q -> 0 <= qA -> q <= qA ->
+  CLsb_of RNum (run_obs RNum NPhi sqrt KQtilde b q qA) = Some (1 - NPhi (sqrt q)).
+Proof. exact clsb_qtilde_low_concrete. Qed.
+Theorem C07_clb_qtilde_low_normal : forall b q qA, known b -> 0 <= q -> 0 <= qA -> q <= qA ->
+  CLb_of RNum (run_obs RNum NPhi sqrt KQtilde b q qA) = Some (1 - NPhi (sqrt q - sqrt qA)).
+Proof. exact clb_qtilde_low_concrete. Qed.
+Theorem C07_clsb_qtilde_high_normal : forall b q qA, known b -> 0 < qA -> qA < q ->
+  CLsb_of RNum (run_obs RNum NPhi sqrt KQtilde b q qA) = Some (1 - NPhi ((q + qA) / (2 * sqrt qA))).
+Proof. exact clsb_qtilde_high_concrete. Qed.
+Theorem C07_clb_qtilde_high_normal : forall b q qA, known b -> 0 < qA -> qA < q ->
+  CLb_of RNum (run_obs RNum NPhi sqrt KQtilde b q qA) = Some (1 - NPhi ((q - qA) / (2 * sqrt qA))).
+Proof. exact clb_qtilde_high_concrete. Qed.
+
+(* the consequences for the concrete cdf: the Gaussian integral is the only premise *)
+Theorem C07_ordering_normal : gauss_total_stmt -> forall k b q qA, known b -> 0 <= q -> 0 <= qA ->
+  exists sb bb s, run_obs RNum NPhi sqrt k b q qA = inr (Some sb, Some bb, Some s) /\
+    0 <= sb /\ sb <= bb /\ bb <= 1 /\ 0 <= s /\ s <= 1.
+Proof. exact ordering_concrete. Qed.
+Theorem C07_band_monotone_normal : gauss_total_stmt -> forall k b q qA, known b -> 0 <= qA ->
+  nondecr (band_of (run_exp RNum NPhi sqrt k b q qA) 0) /\ nondecr (band_of (run_exp RNum NPhi sqrt k b q qA) 1) /\
+  nondecr (band_of (run_exp RNum NPhi sqrt k b q qA) 2).
+Proof. exact band_monotone_concrete. Qed.
+
 Print Assumptions C07_clsb_q_computed.
 Print Assumptions C07_clb_q_computed.
 Print Assumptions C07_clsb_qtilde_low_computed.
@@ -127,3 +170,16 @@ Print Assumptions C07_clipped_else_unchanged.
 Print Assumptions C07_clipped_observed_unchanged.
 Print Assumptions C07_ordering.
 Print Assumptions C07_band_monotone.
+Print Assumptions C07_normal_cdf_symmetric.
+Print Assumptions C07_normal_cdf_increasing.
+Print Assumptions C07_normal_cdf_positive.
+Print Assumptions C07_normal_cdf_mills.
+Print Assumptions C07_normal_cdf_logconcave.
+Print Assumptions C07_clsb_q_normal.
+Print Assumptions C07_clb_q_normal.
+Print Assumptions C07_clsb_qtilde_low_normal.
+Print Assumptions C07_clb_qtilde_low_normal.
+Print Assumptions C07_clsb_qtilde_high_normal.
+Print Assumptions C07_clb_qtilde_high_normal.
+Print Assumptions C07_ordering_normal.
+Print Assumptions C07_band_monotone_normal.
